@@ -246,40 +246,43 @@ structure EigData (α : Type) (ks : Nat) where
   urd : Fin ks → Fin s → α
   urinvv : Fin s → Fin ks → α
 
+/-- `_solve_freq_rb`: the rigid-body block values (`if self.rbsize and incrb:` — otherwise nothing
+is written) -/
+def rbVals (e : ColEnv α) (st : SuState) (uncReal : Bool) (F : Nat → α) (w : α) :
+    Except String (List (Dva α)) :=
+  if st.lay.rb.isEmpty || !(e.inc.d || e.inc.v || e.inc.a) then .ok []
+  else (rbAcc e (rbMassRows st uncReal) st.lay.rb F).map fun arb =>
+    arb.map fun a => frfRb e.isZero e.i a w e.inc
+
+/-- the elastic block of `SolveUnc.fsolve`: the rows written and their values.
+Uncoupled (`if self.elsize:`): `d[el] = force[el] / (…b[_el]… k[_el] … m[_el])`;
+coupled (`if self.ksize:`): `d[kdof] = pc.ur_d @ (w / H)`. -/
+def elValsSU (e : ColEnv α) (st : SuState) (eig : Option (EigData α st.kdof.length))
+    (F : Nat → α) (w : α) : Except String (List Nat × List (Dva α)) :=
+  if e.unc then
+    if st.lay.el.isEmpty then .ok (st.lay.el, [])
+    else match elRows st with
+      | none => .error "index-error"
+      | some rows => (elValsUnc e rows st.lay.el F w).map fun v => (st.lay.el, v)
+  else
+    if st.kdof.isEmpty then .ok ([], [])
+    else match eig with
+      | none => .error "missing-eig"
+      | some ed =>
+        (elValsCoup e st.mRows st.kdof ed.lam ed.urd ed.urinvv F w).map fun v => (st.kdof, v)
+
 /-- one column of `SolveUnc.fsolve` (modal coordinates) -/
 def colSU (e : ColEnv α) (st : SuState) (uncReal : Bool) (eig : Option (EigData α st.kdof.length))
     (F : Nat → α) (w : α) : Except String (List (Dva α)) :=
-  let lay := st.lay
-  match rfVals e lay.rf F w with
+  match rfVals e st.lay.rf F w with
   | .error m => .error m
   | .ok vrf =>
-    -- `if self.rbsize and incrb:`
-    let vrbE : Except String (List (Dva α)) :=
-      if lay.rb.isEmpty || !(e.inc.d || e.inc.v || e.inc.a) then .ok []
-      else (rbAcc e (rbMassRows st uncReal) lay.rb F).map fun arb =>
-        arb.map fun a => frfRb e.isZero e.i a w e.inc
-    match vrbE with
+    match rbVals e st uncReal F w with
     | .error m => .error m
     | .ok vrb =>
-      if e.unc then
-        -- `if self.elsize:` … `d[el] = force[el] / (…b[_el]… k[_el] … m[_el])`
-        let velE : Except String (List (Dva α)) :=
-          if lay.el.isEmpty then .ok []
-          else match elRows st with
-            | none => .error "index-error"
-            | some rows => elValsUnc e rows lay.el F w
-        match velE with
-        | .error m => .error m
-        | .ok vel => .ok (assemble lay.n lay.rf vrf lay.rb vrb lay.el vel)
-      else
-        -- `if self.ksize:` … `d[kdof] = pc.ur_d @ (w / H)`
-        if st.kdof.isEmpty then .ok (assemble lay.n lay.rf vrf lay.rb vrb [] [])
-        else match eig with
-          | none => .error "missing-eig"
-          | some ed =>
-            match elValsCoup e st.mRows st.kdof ed.lam ed.urd ed.urinvv F w with
-            | .error m => .error m
-            | .ok vel => .ok (assemble lay.n lay.rf vrf lay.rb vrb st.kdof vel)
+      match elValsSU e st eig F w with
+      | .error m => .error m
+      | .ok (rows, vel) => .ok (assemble st.lay.n st.lay.rf vrf st.lay.rb vrb rows vel)
 
 /-- `FreqDirect.fsolve`, the `kdof` (= non-rf) block -/
 def fdVals (e : ColEnv α) (nonrf : List Nat) (F : Nat → α) (w : α) : Except String (List (Dva α)) :=
